@@ -21,15 +21,16 @@ open Morlock Morlock.Model Morlock.Model.World Morlock.Model.Score
 open Morlock.Proofs Morlock.Proofs.Arena Morlock.Proofs.Gen Morlock.Proofs.Chain Morlock.Proofs.Draw
 
 /-- an exploration that only picks captures -/
-def CapturesOnly (ex : Explore) : Prop := ∀ m, ex.pick m = true → m.isCapture = true
+def CapturesOnly {P : Type} (ex : P → Explore) : Prop := ∀ p m, (ex p).pick m = true → m.isCapture = true
 
 /-- The driver's quiescence exploration picks only captures. -/
-theorem capturesOnly_driver (prio : Move → Int) : CapturesOnly { prio := prio, pick := fun m => m.isCapture } :=
-  fun _ h => h
+theorem capturesOnly_driver {P : Type} (prio : Move → Int) :
+    CapturesOnly (constEx (P := P) { prio := prio, pick := fun m => m.isCapture }) :=
+  fun _ _ h => h
 
 /-! ## `QDone` is monotone in the fuel -/
 
-theorem QDone_mono {P : Type} (g : Game P) (ex : Explore) :
+theorem QDone_mono {P : Type} (g : Game P) (ex : P → Explore) :
     ∀ fuel fuel' p, fuel ≤ fuel' → QDone g ex fuel p → QDone g ex fuel' p := by
   intro fuel
   induction fuel with
@@ -182,7 +183,7 @@ theorem inv_pushAll {z : ZTable} (ms : List Move) :
 /-! ## the fuel is enough -/
 
 /-- With at most `k + 1` men on the board, `k + 1` plies of fuel exhaust the captures-only tree. -/
-theorem boardGame_qdone_men (z : ZTable) (ev : Position → Color → Int) (ex : Explore) (hex : CapturesOnly ex) :
+theorem boardGame_qdone_men (z : ZTable) (ev : Position → Color → Int) (ex : World → Explore) (hex : CapturesOnly ex) :
     ∀ k w, Inv w → menP (w.cur 0).pos ≤ k + 1 → QDone (boardGame z ev) ex (k + 1) w := by
   intro k
   induction k with
@@ -193,7 +194,7 @@ theorem boardGame_qdone_men (z : ZTable) (ev : Position → Color → Int) (ex :
     have hm' : m ∈ (w.cur 0).pos.pseudoLegalMoves (w.board 0).turn := hm
     have hpush' : w.pushMove z 0 m = some c := hpush
     obtain ⟨_, _, _, hmv, _⟩ := push_line h.1 h.2.1 hpush'
-    have := menP_capture h.2.2 hm' (hex m hp) hmv
+    have := menP_capture h.2.2 hm' (hex _ m hp) hmv
     exfalso; omega
   | succ k ih =>
     intro w h hk
@@ -202,41 +203,41 @@ theorem boardGame_qdone_men (z : ZTable) (ev : Position → Color → Int) (ex :
     have hm' : m ∈ (w.cur 0).pos.pseudoLegalMoves (w.board 0).turn := hm
     have hpush' : w.pushMove z 0 m = some c := hpush
     obtain ⟨_, _, _, hmv, _⟩ := push_line h.1 h.2.1 hpush'
-    have := menP_capture h.2.2 hm' (hex m hp) hmv
+    have := menP_capture h.2.2 hm' (hex _ m hp) hmv
     exact ih c (inv_push h hm' hpush') (by omega)
 
 /-- Any fuel `≥ 1` that is at least the number of men is enough. -/
-theorem boardGame_qdone_of_men_le (z : ZTable) (ev : Position → Color → Int) (ex : Explore) (hex : CapturesOnly ex)
+theorem boardGame_qdone_of_men_le (z : ZTable) (ev : Position → Color → Int) (ex : World → Explore) (hex : CapturesOnly ex)
     (w : World) (h : Inv w) (fuel : Nat) (h1 : 1 ≤ fuel) (hmen : menP (w.cur 0).pos ≤ fuel) :
     QDone (boardGame z ev) ex fuel w := by
   obtain ⟨k, rfl⟩ : ∃ k, fuel = k + 1 := ⟨fuel - 1, by omega⟩
   exact boardGame_qdone_men z ev ex hex k w h hmen
 
 /-- The same with the population count of `Position.All`. -/
-theorem boardGame_qdone_popCount (z : ZTable) (ev : Position → Color → Int) (ex : Explore) (hex : CapturesOnly ex)
+theorem boardGame_qdone_popCount (z : ZTable) (ev : Position → Color → Int) (ex : World → Explore) (hex : CapturesOnly ex)
     (w : World) (h : Inv w) (fuel : Nat) (h1 : 1 ≤ fuel) (hmen : popCount (w.cur 0).pos.all ≤ fuel) :
     QDone (boardGame z ev) ex fuel w :=
   boardGame_qdone_of_men_le z ev ex hex w h fuel h1 (by rw [menP_eq_popCount h.2.2.1.rep]; exact hmen)
 
 /-- **The driver's fuel (64) exhausts the captures-only quiescence tree of every world satisfying `Inv`.** -/
-theorem boardGame_qdone (z : ZTable) (ev : Position → Color → Int) (ex : Explore) (hex : CapturesOnly ex)
+theorem boardGame_qdone (z : ZTable) (ev : Position → Color → Int) (ex : World → Explore) (hex : CapturesOnly ex)
     (w : World) (h : Inv w) : QDone (boardGame z ev) ex 64 w :=
   boardGame_qdone_of_men_le z ev ex hex w h 64 (by decide) (menP_le _)
 
 /-- On a board with at most 32 men, 32 plies are enough. -/
-theorem boardGame_qdone_32 (z : ZTable) (ev : Position → Color → Int) (ex : Explore) (hex : CapturesOnly ex)
+theorem boardGame_qdone_32 (z : ZTable) (ev : Position → Color → Int) (ex : World → Explore) (hex : CapturesOnly ex)
     (w : World) (h : Inv w) (h32 : popCount (w.cur 0).pos.all ≤ 32) : QDone (boardGame z ev) ex 32 w :=
   boardGame_qdone_popCount z ev ex hex w h 32 (by decide) h32
 
 /-- For every evaluation: more fuel than 64 does not change the reference value, and `quiesce` with fuel 64 never
 runs out of fuel. -/
-theorem boardGame_enough_fuel (z : ZTable) (ev : Position → Color → Int) (ex : Explore) (hex : CapturesOnly ex)
+theorem boardGame_enough_fuel (z : ZTable) (ev : Position → Color → Int) (ex : World → Explore) (hex : CapturesOnly ex)
     (w : World) (h : Inv w) :
     (∀ fuel', 64 ≤ fuel' → Q (boardGame z ev) ex fuel' w = Q (boardGame z ev) ex 64 w) ∧
     ∀ a b st, (quiesce (boardGame z ev) ex 64 w a b st).2.fuelOut = st.fuelOut :=
   ⟨Q_stable _ ex 64 w (boardGame_qdone z ev ex hex w h), quiesce_fuelOut _ ex 64 w (boardGame_qdone z ev ex hex w h)⟩
 
-theorem materialGame_enough_fuel (z : ZTable) (ex : Explore) (hex : CapturesOnly ex) (w : World) (h : Inv w) :
+theorem materialGame_enough_fuel (z : ZTable) (ex : World → Explore) (hex : CapturesOnly ex) (w : World) (h : Inv w) :
     (∀ fuel', 64 ≤ fuel' → Q (materialGame z) ex fuel' w = Q (materialGame z) ex 64 w) ∧
     ∀ a b st, (quiesce (materialGame z) ex 64 w a b st).2.fuelOut = st.fuelOut :=
   boardGame_enough_fuel z _ ex hex w h
@@ -253,18 +254,18 @@ theorem c05_wS_inv : Inv Props.C05.wS := inv_newBoard exZ 0 1 c05_exPos_wfplay
 board - already 4 plies exhaust its tree. -/
 example :
     (∀ fuel', 64 ≤ fuel' →
-      Q (materialGame exZ) { prio := mvvlva, pick := fun m => m.isCapture } fuel' Props.C05.wS =
-        Q (materialGame exZ) { prio := mvvlva, pick := fun m => m.isCapture } 64 Props.C05.wS) ∧
-    (∀ a b st, (quiesce (materialGame exZ) { prio := mvvlva, pick := fun m => m.isCapture } 64 Props.C05.wS a b st).2.fuelOut
+      Q (materialGame exZ) (constEx { prio := mvvlva, pick := fun m => m.isCapture }) fuel' Props.C05.wS =
+        Q (materialGame exZ) (constEx { prio := mvvlva, pick := fun m => m.isCapture }) 64 Props.C05.wS) ∧
+    (∀ a b st, (quiesce (materialGame exZ) (constEx { prio := mvvlva, pick := fun m => m.isCapture }) 64 Props.C05.wS a b st).2.fuelOut
         = st.fuelOut) ∧
-    QDone (materialGame exZ) { prio := mvvlva, pick := fun m => m.isCapture } 4 Props.C05.wS :=
+    QDone (materialGame exZ) (constEx { prio := mvvlva, pick := fun m => m.isCapture }) 4 Props.C05.wS :=
   ⟨(materialGame_enough_fuel exZ _ (capturesOnly_driver mvvlva) _ c05_wS_inv).1,
    (materialGame_enough_fuel exZ _ (capturesOnly_driver mvvlva) _ c05_wS_inv).2,
    boardGame_qdone_popCount exZ _ _ (capturesOnly_driver mvvlva) _ c05_wS_inv 4 (by decide) (by decide +kernel)⟩
 
 /-- The hypothesis `CapturesOnly` cannot be dropped in general: `QDone … 0` is false, and an exploration that picks
 every move keeps finding children on `wS` (the knights can shuffle), so one ply is not enough there. -/
-example : ¬ QDone (materialGame exZ) fullExploration 1 Props.C05.wS := by
+example : ¬ QDone (materialGame exZ) (constEx fullExploration) 1 Props.C05.wS := by
   simp only [QDone]
   intro h
   rcases h with h | h
